@@ -272,6 +272,12 @@ def run(ctx):
                 from decimal import Decimal
                 end = float(Decimal(s) + (n - 1) * Decimal(h))
                 gen_cases.append((float(s), end, float(h)))
+    # awkward steps: 1/h is not a multiple of the scale the first edge needs (0.1/0.04 -> scale 25), non-binary steps (0.07, 0.03)
+    for s_ in ODD_STARTS + ["4.95", "0", "2.5", "-125.4"]:
+        for h_ in ODD_STEPS + ["0.04", "0.0625", "0.125", "0.005", "0.001"]:
+            for n_ in (3, 60, 400):
+                from decimal import Decimal
+                gen_cases.append((float(s_), float(Decimal(s_) + (n_ - 1) * Decimal(h_)), float(h_)))
     gen_cases += [(4.95, 8.95, 0.1), (5.95, 8.95, 0.1), (2.5, 8.95, 0.05), (3.95, 8.95, 0.1), (-180.0, 180.0, 1.0),
                   (-90, 90.0, 0.5), (-180.0, 180.0, 0.1), (0.0, 10.0, 0.01), (4.0, 9.0, 0.5)]
     for j in range(600 if thorough else 60):
